@@ -83,6 +83,14 @@ TR_FUNCS = {
     'ball_step': dict(toplevel=True, pure=True, params={'x0': 'vec', 'g': 'vec', 'Delta': 'T'}, ret='T'),
     'trsbox_linear': dict(toplevel=True, params={'g': 'vec', 'a_in': 'vec', 'b_in': 'vec', 'Delta': 'T'}, fixed={'use_fortran': False}, ret='vec',
                           locals={'cons_dirns': 'zvec', 'hit_upper': 'opt:B', 'idx_hit': 'opt:Z'}),
+    'd_within_bounds': dict(toplevel=True, pure=True, params={'d': 'vec', 'xopt': 'vec', 'sl': 'vec', 'su': 'vec', 'xbdi': 'zvec'}, ret='vec'),
+    'alt_trust_step': dict(toplevel=True, params={'n': 'Z', 'xopt': 'vec', 'H': 'mat', 'sl': 'vec', 'su': 'vec', 'd': 'vec', 'xbdi': 'zvec', 'nact': 'Z',
+                                                  'gnew': 'vec', 'qred': 'T'}, ret='tup:vec|vec',
+                           locals={'iact': 'opt:Z'}, predeclare={'rdprev': 'T', 'rdnext': 'T', 'xsav': 'Z', 'angt': 'T'}),
+    'trsbox': dict(toplevel=True, params={'xopt': 'vec', 'g': 'vec', 'H': 'mat', 'sl': 'vec', 'su': 'vec', 'delta': 'T'}, fixed={'use_fortran': False},
+                   ret='tup:vec|vec|T', locals={'iact': 'opt:Z'}, predeclare={'gredsq': 'T', 'itermax': 'Z', 'gredsq0': 'T', 'ggsav': 'T'},
+                   drop_asserts=('xopt.shape == (n,)', 'g.shape == (n,)', 'len(H.shape) == 2', 'H.shape == (n, n)', 'np.allclose(H, H.T)',
+                                 'sl.shape == (n,)', 'su.shape == (n,)')),
     'trsbox_geometry': dict(toplevel=True, params={'xbase': 'vec', 'c': 'T', 'g': 'vec', 'lower': 'vec', 'upper': 'vec', 'Delta': 'T'},
                             fixed={'use_fortran': False}, ret='vec'),
 }
